@@ -5,6 +5,8 @@ K2  heading-section units of DocxContent / OdtContent / DocContent (styles, leve
 K3  legacy PPT slide construction (record types / text types symbolic; helper-level fault model)
 K4  mbox split arithmetic on symbolic separator positions
 K5  PPTX slide order from presentation.xml + relationships (OPC target resolution)
+K6  EPUB spine items -> chapters
+K7  mailbox -> messages -> units with the live separator pattern (symbolic envelope sender / year)
 """
 import io
 import re as _real_re
@@ -568,7 +570,7 @@ def _chain(heads, h):
     return out[::-1]
 
 
-def _section_oracle(ctx, items, units, allow_heading_like_in_body=False, extra_info=None):
+def _section_oracle(ctx, items, units, allow_heading_like_in_body=False, extra_info=None, heading_coverage=False):
     """items: source paragraphs {'i','kind' heading|body|skip,'level','tok' (None = blank),'pb'}
     units: [(number, text, heading_path)] as observed.  Written from the property text:
       numbers 1..m; without headings one unit holding everything; with headings every non-blank
@@ -631,6 +633,25 @@ def _section_oracle(ctx, items, units, allow_heading_like_in_body=False, extra_i
                         para=it["i"], section=sec["tok"], got=got)
         ctx.require(all(g in anc for g in got), "foreign-heading-in-heading-path",
                     para=it["i"], ancestors=anc, got=got)
+    # units follow the source order of their sections (a unit is filed under the last entry of its path;
+    # a heading without text leaves its ancestor there, so only documents whose headings all have text)
+    if all(h["tok"] for h in heads):
+        head_by_tok = {h["tok"]: h["i"] for h in heads}
+        filed = [head_by_tok[p[-1]] for p in paths if p and p[-1] in head_by_tok]
+        ctx.require(filed == sorted(filed), "units-not-in-source-order-of-their-sections", sections=filed,
+                    paths=paths)
+    if heading_coverage:
+        # "heading text counts as covered by the heading path of its section unit": a heading section may
+        # be folded into a sub-section (whose path then names it), it may not vanish.  Demanded for the
+        # formats whose documentation does not define units as paragraph runs (DOCX); see the note below.
+        for h in heads:
+            if not h["tok"]:
+                continue
+            covered = any(h["tok"] in p for p in paths)
+            if perturb == "expect_own_unit_for_every_heading":
+                covered = any(p[-1:] == [h["tok"]] for p in paths)
+            ctx.require(covered, "heading-text-in-no-heading-path", para=h["i"], heading=h["tok"],
+                        level=h["level"], units=[[u[0], u[1], list(u[2])] for u in units], **(extra_info or {}))
     # lost body text, most specific classes last (so that an unknown cause is reported first)
     classed = []
     for it in lost:
@@ -653,10 +674,12 @@ def _section_oracle(ctx, items, units, allow_heading_like_in_body=False, extra_i
         _require_unless_known(ctx, False, "body-text-lost", fid, cls=cls, para=it["i"], page_break=pbv,
                               units=[[u[0], u[1], list(u[2])] for u in units], **(extra_info or {}))
 
-    # A heading whose section has no body produces no unit in ODT/DOC (DOCX emits an empty unit).
-    # The property counts heading text as "covered by the heading path of its section unit"; whether a
-    # body-less section must have a unit at all is open to two readings - the weaker one is taken and
-    # nothing is demanded for such headings (see DESIGN 7).
+    # A heading whose section has no body produces no unit in ODT/DOC: OdtContent documents its units as
+    # "paragraph runs separated by headings" (no run, no unit), DocContent follows it.  The property counts
+    # heading text as "covered by the heading path of its section unit"; whether a body-less section must
+    # have a unit at all is open to two readings - for ODT/DOC the weaker one is taken and nothing is
+    # demanded for such headings (see DESIGN 7).  DOCX has no such documentation: there the clause is
+    # checked as written (heading_coverage) - every heading text is in the heading path of some unit.
 
 def k2_docx(ctx):
     dt = _dt()
@@ -707,7 +730,7 @@ def k2_docx(ctx):
     extra_info = {}
     if ctx.concrete and anchor == "none":
         extra_info["read_docx_units"] = _docx_public(raw)
-    _section_oracle(ctx, items, obs, extra_info=extra_info)
+    _section_oracle(ctx, items, obs, extra_info=extra_info, heading_coverage=True)
 
 
 def _docx_public(raw):
@@ -1313,6 +1336,130 @@ def k4_mbox(ctx):
 
 
 # =======================================================================================
+# K7  mailbox -> messages -> units with the LIVE separator pattern
+# =======================================================================================
+# RFC 4155 (application/mbox), default format: a message is preceded by the separator line "From", SP,
+# the envelope sender (addr-spec; in practice any token without white space: MAILER-DAEMON, a local user
+# name, Mozilla's "-"), SP, a timestamp in ctime() form "Www Mmm dd hh:mm:ss yyyy", end of line; body
+# lines that begin with "From " are quoted by the writer (">From ").
+_CTIME_PREFIXES = [b"Thu Jan  1 00:00:00 ", b"Fri Dec 31 23:59:59 "]
+
+
+def k7_mbox_units(ctx):
+    """real _split_mbox_messages driven by the LIVE MBOX_FROM_PATTERN (symbolic runs: formula model of
+    the pattern's sre parse tree, vf.props.c16._SymPattern, over bytes that are symbolic wherever the
+    format leaves a choice) on well-formed mailboxes of k messages; concrete runs use the real ``re``
+    and continue through read_mbox_format_mail: one EmailContent (one unit, number 1) per message, in
+    source order, each holding its own body only"""
+    from vf.props import c16 as R
+    m = _mbox()
+    K = ctx.params["K"]
+    k = ctx.params["k"] if "k" in ctx.params else ctx.choice("n_messages", K + 1)
+    sender_lens = ctx.params.get("sender_lens", [1, 4])
+    eol = [13, 10] if ctx.flag("crlf") else [10]
+    date_form = ctx.choice("ctime_form", len(_CTIME_PREFIXES))
+    data, seps, regions = [], [], []
+
+    def line(bs):
+        data.extend(list(bs) + eol)
+
+    for i in range(k):
+        sa = len(data)
+        sl = ctx.params["sender_len"] if "sender_len" in ctx.params else \
+            sender_lens[ctx.choice(f"msg{i}_sender_len", len(sender_lens))]
+        sender = [ctx.fresh_int(f"msg{i}_sender[{j}]", 33, 126) for j in range(sl)]
+        year = [ctx.fresh_int(f"msg{i}_year[{j}]", 48, 57) for j in range(4)]
+        data.extend(list(b"From ") + sender + [32] + list(_CTIME_PREFIXES[date_form]) + year + eol)
+        ra = len(data)
+        line(b"From: s%d@x.org" % i)
+        line(b"Subject: SUBJ%dq" % i)
+        line(b"Date: Thu, 01 Jan 2015 10:00:0%d +0000" % i)
+        line(b"")
+        body = ctx.choice(f"msg{i}_body", 3)
+        if body >= 1:
+            line(b"BODY%dq" % i)
+        if body == 2:
+            line(b">From the quoted line of BODY%dq 2024" % i)
+            line(b"")
+            line(b"TAIL%dq" % i)
+        rb = len(data)
+        while data[rb - 1] in (10, 13):          # (message content is concrete) the region ends before its CR/LF tail
+            rb -= 1
+        if i < k - 1 or ctx.flag("blank_line_after_last_message"):
+            line(b"")
+        seps.append((sa, ra))
+        regions.append((ra, rb, body))
+    n = len(data)
+    info = {}
+    try:
+        if ctx.concrete:
+            raw = bytes(data)
+            info["mailbox"] = repr(raw)
+            got = m._split_mbox_messages(raw)
+            spans, pos = [], 0
+            for g in got:
+                at = raw.find(g, pos) if isinstance(g, bytes) and g else -1
+                ctx.require(at >= 0, "message-is-not-a-region-of-the-mailbox", got=repr(g)[:60], **info)
+                spans.append((at, at + len(g)))
+                pos = at + len(g)
+        else:
+            with ctx.shadow(m, MBOX_FROM_PATTERN=R._SymPattern(m.MBOX_FROM_PATTERN)):
+                got = m._split_mbox_messages(R._MBytes(data))
+            spans = [(g.off, g.off + len(g)) for g in got]
+    except S.Unsupported:
+        raise
+    except Exception as e:
+        spans = None
+        ctx.fail("split-raised", exc=type(e).__name__, msg=str(e)[:100], **info)
+    # ---- oracle: the messages are exactly the k regions after the k separator lines
+    exp = [(sa if ctx.perturb == "expect_separator_line_in_message" else ra, rb)
+           for (sa, _), (ra, rb, _) in zip(seps, regions)]
+    info.update(got=[list(x) for x in spans], expected=[list(x) for x in exp])
+    if len(spans) < k:
+        missing = [i for i, e in enumerate(exp) if e not in spans]
+        ctx.fail("message-lost-or-swallowed-by-its-neighbour", messages=missing, **info)
+    ctx.require(len(spans) == k, "message-invented", **info)
+    ctx.require(spans == exp, "messages-are-not-the-regions-after-the-separator-lines", **info)
+    if not ctx.concrete:
+        return
+    # ---- the same mailbox through the public reader
+    try:
+        docs = list(m.read_mbox_format_mail(io.BytesIO(raw), "x.mbox"))
+        units = [[(_num(u), u.get_text()) for u in d.iterate_units()] for d in docs]
+    except Exception as e:
+        docs = units = None
+        ctx.fail("public-api:read_mbox-raised", exc=type(e).__name__, msg=str(e)[:100], **info)
+    info["units"] = units
+    ctx.require(len(docs) == k, "public-api:messages-and-extractions-differ-in-number", **info)
+    for i, (d, us) in enumerate(zip(docs, units)):
+        ctx.require(len(us) == 1 and us[0][0] == 1, "public-api:message-is-not-one-unit-numbered-1", message=i, **info)
+        ctx.require(d.subject == "SUBJ%dq" % i, "public-api:extraction-k-is-not-message-k", message=i,
+                    subject=d.subject, **info)
+        txt = us[0][1]
+        for j, (_, _, body) in enumerate(regions):
+            for tok, present in (("BODY%dq" % j, body >= 1), ("TAIL%dq" % j, body == 2), ("SUBJ%dq" % j, False)):
+                if j == i and present:
+                    want = 2 if (tok.startswith("BODY") and body == 2) else 1
+                    ctx.require(txt.count(tok) == want, "public-api:unit-text-lost-or-duplicated", message=i,
+                                token=tok, **info)
+                elif j != i:
+                    ctx.require(tok not in txt, "public-api:text-of-another-message-in-unit", message=i,
+                                token=tok, **info)
+        ctx.require("From " not in txt.replace(">From ", ""), "public-api:separator-line-in-unit-text",
+                    message=i, **info)
+
+
+def _k7_parts(tier):
+    if tier == "quick":
+        return [{"K": 2, "k": 0}, {"K": 2, "k": 1}, {"K": 2, "k": 2}, {"K": 3, "k": 3, "sender_len": 1},
+                {"K": 3, "k": 3, "sender_len": 4}, {"K": 1, "k": 1, "sender_len": 13}]
+    return [{"K": 2, "k": 0}, {"K": 2, "k": 1}, {"K": 2, "k": 2, "sender_lens": [1, 3, 6]}] + \
+           [{"K": 3, "k": 3, "sender_len": n} for n in (1, 2, 3, 4, 6)] + \
+           [{"K": 4, "k": 4, "sender_len": n} for n in (1, 4)] + \
+           [{"K": 1, "k": 1, "sender_len": n} for n in (13, 20)] + [{"K": 2, "k": 2, "sender_len": 13}]
+
+
+# =======================================================================================
 # K5  PPTX slide order
 # =======================================================================================
 _REL_PREFIX = "http://schemas.openxmlformats.org/officeDocument/2006/relationships/"
@@ -1568,7 +1715,8 @@ KERNELS = [
     Kernel("K2", "heading-section units of DOCX / ODT / DOC: numbers 1..m, every body paragraph in exactly one unit "
                  "and in the unit of its own section, in order; heading text only in heading paths and in at least one",
            _k2, targets=_k2_targets, parts=_k2_parts, strength="data",
-           perturb=[("expect_flat_heading_path", {"fmt": "docx", "n": 3, "anchor": "none", "style_len": 8})],
+           perturb=[("expect_flat_heading_path", {"fmt": "docx", "n": 3, "anchor": "none", "style_len": 8}),
+                    ("expect_own_unit_for_every_heading", {"fmt": "docx", "n": 2, "anchor": "none", "style_len": 9})],
            stubs=["data_types.re -> model of the one compiled pattern ^heading\\s*(\\d+)\\b (IGNORECASE) on bounded "
                   "symbolic strings; any other pattern is reported as unsupported; concrete replays use the real re",
                   "data_types.int -> decimal value of a symbolic digit string"],
@@ -1624,7 +1772,29 @@ KERNELS = [
            symbolic=["mailbox length (0..60)", "start and end of each of 0..3 (thorough 0..6) separator lines "
                      "(ordered, non-overlapping, non-empty)", "number of trailing CR/LF bytes of every gap"],
            assumptions=["separator matches are ordered and do not overlap (what re.finditer guarantees)"],
-           outside=["which lines the regex accepts as separators (C16)", "parsing of each message"],
+           outside=["which lines the regex accepts as separators (C03/K7 on well-formed mailboxes, C16/K1 in general)",
+                    "parsing of each message"],
+           timeout={"quick": 100, "thorough": 1100}),
+    Kernel("K7", "mbox: one message (one extraction, one unit) per RFC 4155 separator line whatever the envelope "
+                 "sender token and year, in source order, each message holding its own region only",
+           k7_mbox_units, targets=lambda: [_mbox()._split_mbox_messages, _mbox().read_mbox_format_mail],
+           strength="data", parts=_k7_parts,
+           perturb=[("expect_separator_line_in_message", {"K": 2, "k": 2})],
+           stubs=["symbolic runs: MBOX_FROM_PATTERN -> formula model built from the LIVE pattern's sre parse tree "
+                  "(vf.props.c16._SymPattern / _Rx, validated against re by C16/K1a and by every replay, which runs "
+                  "the real re); mailbox bytes -> list of ints / solver variables with slice + rstrip",
+                  "replays: the real bytes through _split_mbox_messages and read_mbox_format_mail"],
+           symbolic=["every character of every separator line's envelope sender (1, 4, 13 printable non-blank "
+                     "characters; thorough 1..20): the solver finds senders with and without '@', digits, ':'",
+                     "the four year digits of every separator line"],
+           choices=["0..3 (thorough 4) messages", "LF / CRLF line ends", "ctime form (blank-padded / two-digit day)",
+                    "message body: none, one line, several lines with a quoted '>From ' line and an inner blank line",
+                    "blank line after the last message"],
+           assumptions=["well-formed mailbox (RFC 4155): every message is preceded by a separator line 'From <sender "
+                        "token> <ctime timestamp>'; body lines beginning with 'From ' are quoted by the writer",
+                        "reference = the construction: message i is the region after separator line i without the "
+                        "CR/LF tail"],
+           outside=["mailboxes that are not well-formed (C16/K1b)", "MIME structure of the messages (C16)"],
            timeout={"quick": 100, "thorough": 1100}),
     Kernel("K6", "EPUB: every spine item whose media type is XHTML/HTML becomes a chapter with its spine position",
            k6_epub_spine,
@@ -1660,7 +1830,8 @@ META = {
                   "decided. Eight defect classes are found, replayed on the untouched code (three also through "
                   "read_docx / read_pptx on real packages) and recorded as known findings.",
     "level_note": "Bounds: <= 3 (thorough 4-5) elements per document, style names of 8-11 ASCII characters, <= 3 (5) PPT "
-                  "atoms, <= 3 (6) mbox separators. Trusted: the hand-written model of one regular expression and of "
+                  "atoms, <= 3 (6) mbox separators, <= 3 (4) mbox messages with envelope senders of 1-13 (20) symbolic "
+                  "characters (K7; regex model of vf.props.c16). Trusted: the hand-written model of one regular expression and of "
                   "_iter_records on well-formed streams (both re-validated by concrete replay of passing paths and of "
                   "every counterexample). K1 texts come from a finite alphabet (str.join cannot carry symbolic strings); "
                   "outside: third-party parsers that fill the objects.",
